@@ -1499,7 +1499,7 @@ def option_case(v, what, N, opts):
         spec = zand(z3.If(ns[i], z3.BoolVal(ina), f_z(xs[i])) for i in range(N))
         asserts.append(("opt/element_wise_spec", v.iff(Bz(r1.check_passed) if v.sym else bool(r1.check_passed), spec)))
     elif what == "n_failure_cases":
-        n = v.choice("n", [1, 2, 3][:max(1, N)])
+        n = v.choice("n", [0, 1, 2, 3][:max(2, N + 1)])  # (zero is a legal limit: nothing is reported, the verdict stands)
         r_all, r_n = Check(f_vec)(ser), Check(f_vec, n_failure_cases=n)(ser)
         asserts.append(("opt/n_failure_cases_verdict", v.holds(both(Bz(r_all.check_passed), Bz(r_n.check_passed)))))
         fa, fn = _failing_rows(v, r_all, N, labels), _failing_rows(v, r_n, N, labels)
@@ -2338,6 +2338,19 @@ def decorator_case(v, shape, N):
         f = check_output(schema, 1, **opts)(body2)
         call = lambda: f(df)  # noqa: E731
         out_kind = "tuple"
+    elif shape in ("output-tuple-coerce", "output-dict-coerce"):
+        # the designated element is the caller's own frame and the schema changes data (int -> float): with the default
+        # inplace=False neither the other elements nor the caller's frame may change
+        schema = pa.DataFrameSchema({"a": pa.Column(float, Check.ge(lo), coerce=True)})
+        opts = dict(lazy=lazy)
+
+        def body_alias(x):
+            ran.append(1)
+            got.append(x)
+            return (x, x) if shape == "output-tuple-coerce" else {"raw": x, "k": x}
+        f = check_output(schema, 1 if shape == "output-tuple-coerce" else "k", **opts)(body_alias)
+        call = lambda: f(df)  # noqa: E731
+        out_kind = "tuple" if shape == "output-tuple-coerce" else "dict"
     elif shape == "output-tuple-neg":  # the same element designated from the end
         def body2n(x):
             ran.append(1)
@@ -2385,6 +2398,8 @@ def decorator_case(v, shape, N):
         same_kind = (o["kind"] == direct["kind"]) and not body_raised
     asserts.append(("decorator/outcome_as_direct_validation", v.holds(same_kind)))
     asserts.append(("decorator/channel", v.holds(channel_ok(o))))
+    if snap is not None and not opts.get("inplace") and not isinstance(opts.get("inplace"), SymBoolT):
+        asserts.append(("decorator/input_unchanged", H.equal_to_snapshot(v, df, snap)))
     if o["kind"] == "accept" and direct["kind"] == "accept":
         res = o["out"]
         if not (isinstance(res, str) and res == "BODY-RAISED"):
@@ -2413,7 +2428,7 @@ DECORATOR_SHAPES = ("none-pos", "none-kw", "name-pos", "name-kw", "int-pos", "me
                     "name-pos-parse", "name-kw-parse", "int-pos-parse", "none-pos-parse", "io-parse", "method-name-parse", "name-pos-drop", "io-drop", "int-pos-drop",
                     "types-pos-nonearg", "types-kw-nonearg", "none-pos-nonearg", "name-pos-nonearg",
                     "bound-none", "bound-name", "bound-int", "types-kwargs", "types-varargs1", "types-varargs2", "output-tuple-neg", "output-parse", "output-tuple-parse", "output-tuple-neg-parse",
-                    "output-dict-parse")
+                    "output-dict-parse", "output-tuple-coerce", "output-dict-coerce")
 
 
 # ------------------------------------------------------------------ histories of non-transforming operations (C05)
